@@ -201,6 +201,44 @@ func VerifC09_DumpCompressLoad() {
 	rt.Reach("compress-end")
 }
 
+// dumps are independent of each other: a compressed dump that is still held
+// while further dumps are made (and after their results were dropped) loads
+// to its own value
+func VerifC09_DumpsAreIndependent() {
+	format := []uint8{JSON, CBOR, MsgPack}[rt.Choice("format", 3)]
+	compression := []uint8{GZIP, AUTO, 0}[rt.Choice("compression", 3)]
+	a, b := &verifValue{}, &verifValue{}
+	*a = *symValue()
+	*b = *a
+	b.C = a.C + 1
+	b.B = !a.B
+	var first, second []byte
+	var err error
+	if compression == 0 {
+		first, err = Dump(a, format)
+	} else {
+		first, err = DumpAndCompress(a, format, compression)
+	}
+	if err != nil {
+		return
+	}
+	snapshot := append([]byte{}, first...)
+	if compression == 0 {
+		second, err = Dump(b, format)
+	} else {
+		second, err = DumpAndCompress(b, format, compression)
+	}
+	if err != nil {
+		return
+	}
+	rt.Assert(rt.EqBytes(first, snapshot), "independent/earlier-dump-unchanged-by-a-later-one")
+	// (the held bytes are what the first dump returned: that they load to the
+	// first value is the round trip of the harnesses above; the engine's codec
+	// contract stubs are not injective, so the values are not compared here)
+	_ = second
+	rt.Reach("independent-end")
+}
+
 // ---- O4: Load is total on arbitrary bytes ----
 
 func VerifC09_LoadTotal() {
